@@ -85,6 +85,18 @@ theorem C15_gen_basic (h d : Nat) (s : St) :
   refine ⟨by simp [Signal.basicSetHandler, Src.collect], rfl, by decide⟩
 
 open MpVerif.Gen in
+/-- **The model's memory assumption is discharged by the declarations.**  The transition system lets every load of a
+    cell (the stop query, the handler's tests) see the latest store, also one made by a signal handler in between.
+    C++ only guarantees that for `volatile std::sig_atomic_t` / `std::atomic` objects: the generated declarations say
+    `stop_` is `volatile std::sig_atomic_t` and the four others are atomics.  (Dropping `volatile` lets an optimising
+    compiler hoist the load out of a polling loop: seeded change C15-5.) -/
+theorem C15_gen_cells :
+    Signal.cellDecls.map (fun p => (p.1, p.2.accessesMemory)) =
+      [(.stop, true), (.handler, true), (.data, true), (.msgPtr, true), (.msgSize, true)] ∧
+    Signal.cellDecls.lookup .stop = some ⟨true, false, "std::sig_atomic_t"⟩ := by
+  decide
+
+open MpVerif.Gen in
 /-- the call-outs sit where the check assumes: every store is followed by its own `MP_VERIF_POINT` before the
     next store, with these names (so a signal can be delivered in every gap, and only there) -/
 theorem C15_gen_callouts :
